@@ -5,6 +5,8 @@ import json
 import os
 import sys
 
+for _v in ("OMP_NUM_THREADS", "OPENBLAS_NUM_THREADS", "MKL_NUM_THREADS"):
+    os.environ.setdefault(_v, "1")
 os.environ.setdefault("MPLBACKEND", "Agg")
 os.environ["DISCOPY_VERIF"] = "1"
 if "/repo" not in sys.path:
